@@ -28,8 +28,9 @@ def run(ctx, sess):
     ctx.rule('C12.1', 'the pair as written: jls_wr_utc puts the sample id into the DATA payload header and the time into its timestamp field, takes the chunk offset before the write, and hands (sample id, that offset, time) to jls_wr_ts_utc, whose index entry stores (sample id, offset) and whose summary entry stores (sample id, time), both appended at their own entry_count')
     ctx.rule('C12.2', 'sample-id frames in the UTC reader: the sample_id_offset is applied exactly once to each value and no compare mixes an api-relative id with a file id')
     ctx.rule('C12.3', '"exactly the pairs at or after it": the skip loop of jls_core_utc advances over a summary entry only on the edge on which the requested id is strictly greater than the entry id')
-    ctx.rule('C12.4', 'the time-series chunks of the UTC track: INDEX immediately followed by its SUMMARY, nothing indexed dropped at commit, seek lands on the first of equal ids (shared with C05.6, C11.8, C11.9)')
+    ctx.rule('C12.4', 'the time-series chunks of the UTC track: INDEX immediately followed by its SUMMARY, nothing indexed dropped at commit, seek lands on the first of equal ids, upper index levels keyed by the index below (shared with C05.6, C11.8, C11.9, C11.12)')
     ctx.rule('C12.5', 'the map answers only when complete and safe: attached after a successful load (shared with C04.9); a successful realloc installed, bisection inside the arrays, slope divisor compared with zero (shared with C10.19, C10.20, C10.25)')
+    ctx.rule('C12.7', 'the map never stores past its arrays: every store at [entries_length] lies behind a compare of entries_length with entries_alloc, or every caller reserves first through a helper whose growth was evaluated (finite-domain trace: capacity >= requested count on return) for the requests that caller can make')
     ctx.rule('C12.6', 'a callback that asks to stop ends the UTC iteration, and every delivery hands over the buffer just read')
 
     w = P.fn('jls_wr_utc')
@@ -66,13 +67,8 @@ def run(ctx, sess):
     for c in calls:
         a = [strip_casts(x) for x in c.args]
         ok_pair = a[1].get('name') == sid and a[3].get('name') == utc
-        off_ok = False
-        if a[2].get('op') == 'ref':
-            defs, _ = df.reaching_defs(w, a[2]['name'], c.block, c.idx)
-            def rhs_of(d):
-                return d.e if d.k == 'decl' else d.store_parts()[1]
-            off_ok = bool(defs) and all(any(nd.get('op') == 'call' and nd.get('callee') == 'jls_raw_chunk_tell' for nd in walk(rhs_of(d) or {})) for d in defs)
-            off_ok = off_ok and bool(wr) and all(ev_dominates(d, wr[0]) for d in defs) and ev_dominates(wr[0], c)
+        from .c14 import _written_offset_value
+        off_ok = _written_offset_value(w, c, a[2])[0]
         ctx.ob('C12.1', ok_pair and off_ok, w.name, 'index entry = (sample id, offset of the chunk just written, time)', c.where(),
                'pair passed unchanged: %s; offset taken before the write: %s' % (ok_pair, off_ok))
     p_sid, p_off, p_utc = (t.params[i]['name'] for i in (1, 2, 3))
@@ -163,10 +159,12 @@ def run(ctx, sess):
     # ---- C12.4 / C12.5: shared rules
     from .common import relay
     from . import c05 as _c05, c11 as _c11, c04 as _c04, c10 as _c10
-    relay(ctx, sess, _c11.run, {'C11.6': 'C12.4', 'C11.8': 'C12.4', 'C11.9': 'C12.4'}, minimum=3)
+    relay(ctx, sess, _c11.run, {'C11.6': 'C12.4', 'C11.8': 'C12.4', 'C11.9': 'C12.4', 'C11.12': 'C12.4'}, minimum=4)
     relay(ctx, sess, _c04.run, {'C04.9': 'C12.5'}, only_functions=('utc_load',), minimum=1)
     relay(ctx, sess, _c10.run, {'C10.19': 'C12.5', 'C10.20': 'C12.5', 'C10.25': 'C12.5'},
           only_functions=('jls_tmap_add', 'interp_i64', 'jls_tmap_sample_id_to_timestamp', 'jls_tmap_timestamp_to_sample_id'), minimum=4)
+
+    map_append_rule(ctx, P, 'C12.7')
 
     # ---- C12.6
     cbs = [ev for ev in r.events('call') if ev.callee is None]
@@ -187,3 +185,99 @@ def run(ctx, sess):
         w_ = find_path(r, 'entry', lambda e2, facts_: 'stop' if (e2.k == 'call' and e2.callee == 'jls_core_rd_chunk') else ('target' if e2 is cb else None), refine=False)
         ctx.ob('C12.6', w_ is None, r.name, 'delivery follows a checked chunk read', cb.where(),
                'jls_core_rd_chunk on every path to the callback' if w_ is None else 'a path reaches the callback without reading a chunk', w_.render() if w_ else None)
+
+
+def map_append_rule(ctx, P, rule):
+    """every store at [entries_length] of the map arrays lies behind a capacity test, or behind a reserve that was evaluated"""
+    from ..fd import trace_calls, FD, Top
+    from ..ir import path_of
+    fns = {f.name: f for f in P.fns_in('src/tmap.c')}
+
+    def mentions(e, field):
+        return any(m.get('op') == 'member' and m.get('field') == field for m in walk(e or {}))
+
+    def guard_blocks(fn):
+        return {b.id for b in fn.blocks.values() if b.cond is not None and mentions(b.cond, 'entries_length') and mentions(b.cond, 'entries_alloc')}
+
+    def reserve_ok(R, extra_one):
+        """FD evaluation of a reserve helper R(self, count): on a zero return the capacity covers the count"""
+        cparam = R.params[1]['name'] if len(R.params) > 1 else None
+        if cparam is None:
+            return False, 'no count parameter'
+        akey = None
+        for b in R.blocks.values():
+            for e in [ev.e for ev in b.events if ev.e is not None] + ([b.cond] if b.cond is not None else []):
+                for m in walk(e):
+                    if m.get('op') == 'member' and m.get('field') == 'entries_alloc':
+                        p = path_of(m) or R.path(m)
+                        if p is not None:
+                            akey = str(p)
+        if akey is None:
+            return False, 'capacity not read'
+        fd = FD(P)
+        for extra in ((1,) if extra_one else (1, 2, 999, 1000, 1001, 5000)):
+            A = 1000
+            count = A + extra
+            last = {}
+
+            def on_store(ev, env, sym, last=last):
+                lhs, rhs, o = ev.store_parts()
+                l0 = strip_casts(lhs)
+                if l0.get('op') == 'member' and l0.get('field') == 'entries_alloc' and rhs is not None:
+                    try:
+                        v = fd.ev(R, rhs, env)
+                        last['alloc'] = v
+                        env[akey] = v
+                    except Exception:
+                        last['alloc'] = None
+            try:
+                box = []
+                trace_calls(P, R, {'self': 1, cparam: count, akey: A}, assume_calls=4096, max_steps=5000, on_store=on_store, _retbox=box)
+            except Top:
+                return False, 'growth not decidable for count %d' % count
+            got = last.get('alloc', A)
+            if got is None or got < count:
+                return False, 'with capacity %d and %d entries requested the capacity becomes %s' % (A, count, got)
+        return True, 'capacity >= count for the evaluated requests'
+
+    n = 0
+    for fn in fns.values():
+        for ev in fn.stores():
+            lhs, rhs, o = ev.store_parts()
+            l0 = strip_casts(lhs)
+            if l0.get('op') != 'sub' or not (strip_casts(l0['k'][1]).get('op') == 'member' and strip_casts(l0['k'][1]).get('field') == 'entries_length'):
+                continue
+            n += 1
+            ctx.saw(fn, 1)
+            g = guard_blocks(fn)
+            w = find_path(fn, 'entry', lambda e2, facts: 'target' if e2 is ev else None, refine=False, edge_ok=lambda b_, s_, lab: b_.id not in g)
+            if w is None:
+                ctx.ob(rule, True, fn.name, 'append %s' % show(l0)[:40], ev.where(), 'a compare of entries_length with entries_alloc lies on every path to the store')
+                continue
+            # the callers must provide the room, once per append
+            sites = [(gfn, c) for gfn in fns.values() for c in gfn.calls(fn.name)]
+            bad = None
+            if not sites:
+                bad = 'no capacity test in %s and no caller in this unit' % fn.name
+            for gfn, c in sites:
+                gg = guard_blocks(gfn)
+                reserves = []
+                for c2 in gfn.calls():
+                    R = fns.get(c2.callee)
+                    if R is None or R is fn or not any(mentions(b.cond, 'entries_alloc') for b in R.blocks.values() if b.cond is not None):
+                        continue
+                    extra_one = len(c2.args) > 1 and strip_casts(c2.args[1]).get('op') == 'bin' and const_of(strip_casts(c2.args[1])['k'][1]) == 1
+                    # one reserve for several appends (a loop around the append that does not pass the reserve) needs the full evaluation
+                    cyc = find_path(gfn, c, lambda e2, facts: 'stop' if e2 is c2 else ('target' if e2 is c else None), refine=False) is not None
+                    okR, why = reserve_ok(R, extra_one and not cyc)
+                    if okR:
+                        reserves.append(c2)
+                    else:
+                        bad = bad or '%s() does not make room for what %s then appends (%s)' % (R.name, gfn.name, why)
+                wq = find_path(gfn, 'entry', lambda e2, facts: 'stop' if e2 in reserves else ('target' if e2 is c else None), refine=False,
+                               edge_ok=lambda b_, s_, lab: b_.id not in gg)
+                if wq is not None:
+                    bad = bad or '%s reaches %s() without a capacity test or an evaluated reserve' % (gfn.name, fn.name)
+            ctx.ob(rule, bad is None, fn.name, 'append %s' % show(l0)[:40], ev.where(),
+                   'every caller tests or reserves the capacity first' if bad is None else bad + ': entries are stored past the arrays when a chunk brings more entries than the capacity that is left')
+    ctx.floor('appends to the map arrays', n, 2)
